@@ -319,6 +319,7 @@ def float_idioms(t):
               with r = select(|x| - floor(|x|) >= 1/2, floor(|x|) + 1, floor(|x|))   multiples of ulp(|x|) and the difference is below 1), f + 1 is exact whenever a fraction
                                                                                exists (|x| < 2^(p-1)); |x| < 1/2 and NaN fail the first test and x * 0 is the zero of x's
                                                                                sign, or NaN; infinities have |x| - f = NaN, so r = f = inf.
+      finite  -MAX <= x && x <= MAX                                            ==  |x| != inf, ordered (the isfinite fallback)
     Only these exact shapes are rewritten; any other spelling is left alone (and stays undecided rather than being guessed)."""
     memo = {}
 
@@ -349,7 +350,34 @@ def float_idioms(t):
             return q_
         return None
 
+    def finite_range(y):
+        # -MAX <= x && x <= MAX  ==  |x| != inf (ordered): both are false for NaN and the infinities and true for every finite x
+        if y.op != 'and' or y.w != 1 or len(y.args) != 2:
+            return None
+        lo = hi = None
+        for c in y.args:
+            if c.op != 'fcmp':
+                return None
+            pr, p_, q_ = c.args
+            if pr == 'oge':
+                pr, p_, q_ = 'ole', q_, p_
+            if pr != 'ole':
+                return None
+            if p_.op == 'const' and q_.op != 'const':
+                lo = (tm.fval(p_), q_)
+            elif q_.op == 'const' and p_.op != 'const':
+                hi = (tm.fval(q_), p_)
+        if lo is None or hi is None or lo[1] is not hi[1] or lo[1].w not in (32, 64):
+            return None
+        mx = 3.4028234663852886e+38 if lo[1].w == 32 else 1.7976931348623157e+308
+        if lo[0] == -mx and hi[0] == mx:
+            return tm.fcmp('one', tm.fconst(lo[1].w, float('inf')), tm.fabs(lo[1]))
+        return None
+
     def rewrite(y):
+        fr = finite_range(y)
+        if fr is not None:
+            return fr
         if y.op != 'select':
             return y
         c, a, b = y.args
